@@ -927,6 +927,8 @@ def _refine_witness(terms, ct, env, budget_s=10.0, tries=6000):
             if rnd.random() < 0.05:
                 v = -v
             e[n] = v
+        if any(abs(v) > 1e6 or abs(v) < 1e-6 for v in e.values()):
+            continue                    # stay where floating point is well conditioned
         if good(e):
             return e
     return None
